@@ -293,8 +293,10 @@ pub fn stroke(fam: &str, seed: u64, n: usize) -> Vec<Value> {
         }
         let t = *r.pick(&[([1i64, 0, 0, 1, 0, 0], 1i64), ([1, 0, 0, 1, 0, 0], 1), ([2, 0, 0, 2, 1, 1], 4), ([0, 1, -1, 0, 24, 0], 1),
                           ([2, 0, 0, 2, -20, -18], 1), ([-1, 0, 0, 1, 24, 0], 1), ([3, 4, -4, 3, 40, -20], 5), ([4, -3, 3, 4, -10, 30], 5)]);
+        // the fill rule of the path that is stroked must not matter: a stroke paints the union of its pieces
+        let rule = if r.chance(1, 3) { "EvenOdd" } else { "NonZero" };
         out.push(json!({"id": format!("drv-{}-{}-{}", fam, seed, i), "fam": "stroke", "kind": "stroke", "w": 24, "h": 24, "den": 1,
-                         "ops": ops, "style": style, "ctm": {"m": t.0, "mden": t.1}, "want_dash_path": fam == "dash", "k": k}));
+                         "ops": ops, "rule": rule, "style": style, "ctm": {"m": t.0, "mden": t.1}, "want_dash_path": fam == "dash", "k": k}));
     }
     out
 }
@@ -308,26 +310,45 @@ pub fn curve(fam: &str, seed: u64, n: usize) -> Vec<Value> {
         let nops = r.range(2, 6);
         let mut pt = |r: &mut Rng| (r.range(-8, 40), r.range(-8, 40));
         let mut has_curve = false;
+        // the current point, as far as it is known (after M / L / Q / C): one curve in six returns to it exactly
+        // (a cubic that ends where it starts is a loop with an interior), one cubic in eight has equal control points
+        let mut cur: Option<(i64, i64)> = None;
         for j in 0..nops {
             match r.range(0, 9) {
-                0 | 1 if j > 0 && ops.last().map(|o: &Value| o[0] != "Z").unwrap_or(false) => ops.push(json!(["Z"])),
+                0 | 1 if j > 0 && ops.last().map(|o: &Value| o[0] != "Z").unwrap_or(false) => {
+                    ops.push(json!(["Z"]));
+                    cur = None;
+                }
                 0 | 1 | 2 => {
                     let p = pt(&mut r);
                     ops.push(json!(["M", p.0, p.1]));
+                    cur = Some(p);
                 }
                 3 | 4 => {
                     let p = pt(&mut r);
                     ops.push(json!(["L", p.0, p.1]));
+                    cur = Some(p);
                 }
                 5 | 6 => {
-                    let (c, p) = (pt(&mut r), pt(&mut r));
+                    let (c, mut p) = (pt(&mut r), pt(&mut r));
+                    if let (Some(q), true) = (cur, r.chance(1, 6)) {
+                        p = q;
+                    }
                     ops.push(json!(["Q", c.0, c.1, p.0, p.1]));
                     has_curve = true;
+                    cur = Some(p);
                 }
                 _ => {
-                    let (c, d, p) = (pt(&mut r), pt(&mut r), pt(&mut r));
+                    let (c, mut d, mut p) = (pt(&mut r), pt(&mut r), pt(&mut r));
+                    if let (Some(q), true) = (cur, r.chance(1, 6)) {
+                        p = q;
+                    }
+                    if r.chance(1, 8) {
+                        d = c;
+                    }
                     ops.push(json!(["C", c.0, c.1, d.0, d.1, p.0, p.1]));
                     has_curve = true;
+                    cur = Some(p);
                 }
             }
         }
